@@ -123,6 +123,22 @@ pub fn run_case(case: &Value) -> Value {
                 other => panic!("unknown decoder {other}"),
             }
         }
+        "source" => {
+            // keys written in Datalog source (`trusting ed25519/<hex>`): every entry point that takes text
+            let text = case["text"].as_str().unwrap();
+            let which = case["which"].as_str().unwrap();
+            use biscuit_auth::builder::{AuthorizerBuilder, BiscuitBuilder, BlockBuilder, Check, Policy, Rule};
+            use std::convert::TryFrom;
+            let ok = match which {
+                "rule" => Rule::try_from(text).is_ok(),
+                "check" => Check::try_from(text).is_ok(),
+                "policy" => Policy::try_from(text).is_ok(),
+                "block" => BlockBuilder::new().code(text).is_ok(),
+                "biscuit" => BiscuitBuilder::new().code(text).is_ok(),
+                _ => AuthorizerBuilder::new().code(text).is_ok(),
+            };
+            json!({"r": if ok { "ok" } else { "err" }})
+        }
         _ => {
             // verify: signature made by `sk` over `msg`; checked under `vk` (alg `valg`) over `vmsg` with `sig`
             let kp = keypair_of(case["alg"].as_str().unwrap(), case["sk"].as_str().unwrap());
@@ -137,6 +153,11 @@ pub fn run_case(case: &Value) -> Value {
                 }
                 "extend" => sig_bytes.push(0),
                 "empty" => sig_bytes.clear(),
+                "keyless" => {
+                    // the signature anyone can write down: R = a point of small order, s = 0
+                    sig_bytes = hex::decode(case["r_point"].as_str().unwrap()).unwrap();
+                    sig_bytes.extend_from_slice(&[0u8; 32]);
+                }
                 "flip" => {
                     let i = case["at"].as_u64().unwrap() as usize % sig_bytes.len();
                     sig_bytes[i] ^= 1 << (case["bit"].as_u64().unwrap() % 8);
@@ -289,6 +310,8 @@ pub fn run(opts: &Opts) {
             format!("{}/{}", case["what"].as_str().unwrap(), out["r"].as_str().unwrap_or("?"))
         } else if case["kind"] == "verify" {
             format!("verify/{}", out["verified"])
+        } else if case["kind"] == "source" {
+            format!("source/{}", out["r"].as_str().unwrap_or("?"))
         } else {
             "roundtrip".to_string()
         };
@@ -403,6 +426,78 @@ pub fn run(opts: &Opts) {
                     _ => {}
                 }
                 emit(&mut sink, case);
+            }
+        }
+    }
+    // keys in Datalog source: lists of scopes in which a key - genuine, of the wrong length, of odd length, with a
+    // bad prefix - comes first, last, or after `authority` / `previous`
+    {
+        let mut rng = case_rng(opts.seed, 20, 0);
+        for i in 0..(if opts.thorough { 4000 } else { 240 }) {
+            let alg = if rng.gen() { Algorithm::Ed25519 } else { Algorithm::Secp256r1 };
+            let kp = KeyPair::new_with_rng(alg, &mut rng);
+            let genuine = kp.public().to_string();
+            let n = rng.gen_range(1..4);
+            let mut scopes: Vec<String> = vec![];
+            let mut keys_j: Vec<Value> = vec![];
+            for _ in 0..n {
+                match rng.gen_range(0..6) {
+                    0 => scopes.push("authority".into()),
+                    1 => scopes.push("previous".into()),
+                    2 | 3 => {
+                        scopes.push(genuine.clone());
+                        keys_j.push(json!(genuine));
+                    }
+                    _ => {
+                        let (pre, hexs) = genuine.split_once('/').unwrap();
+                        let bad = match rng.gen_range(0..5) {
+                            0 => format!("{pre}/{}", &hexs[..hexs.len() - 2]),
+                            1 => format!("{pre}/{}00", hexs),
+                            2 => format!("{pre}/abcd"),
+                            3 => format!("{}/{}", if pre == "ed25519" { "secp256r1" } else { "ed25519" }, hexs),
+                            _ => format!("{pre}/{}", "00".repeat(if pre == "ed25519" { 31 } else { 32 })),
+                        };
+                        scopes.push(bad.clone());
+                        keys_j.push(json!(bad));
+                    }
+                }
+            }
+            let which = ["rule", "check", "policy", "block", "biscuit", "authorizer"][i % 6];
+            let list = scopes.join(", ");
+            let text = match which {
+                "rule" => format!("h($x) <- f($x) trusting {list}"),
+                "check" => format!("check if f($x) trusting {list}"),
+                "policy" => format!("allow if f($x) trusting {list}"),
+                "block" | "biscuit" => if i % 12 < 6 { format!("trusting {list};\nf(1);\n") } else { format!("check if f($x) trusting {list};\n") },
+                _ => format!("check if f($x) trusting {list};\nallow if true;\n"),
+            };
+            emit(&mut sink, json!({"op": "keys", "kind": "source", "which": which, "text": text, "keys": keys_j}));
+        }
+    }
+    // ed25519 public keys of small order: whatever the message, no signature may verify under them (strict
+    // verification refuses the key; a lax one accepts R = small-order point, s = 0 for one message in `order`)
+    const SMALL_ORDER: [&str; 6] = [
+        "0100000000000000000000000000000000000000000000000000000000000000",
+        "ecffffffffffffffffffffffffffffffffffffffffffffffffffffffffffff7f",
+        "0000000000000000000000000000000000000000000000000000000000000000",
+        "0000000000000000000000000000000000000000000000000000000000000080",
+        "26e8958fc2b227b045c3f489f2ef98f0d5dfac05d3c63339b13802886d53fc05",
+        "c7176a703d4dd84fba3c0b760d10670f2a2053fa2c39ccc64ec7fd7792ac037a",
+    ];
+    {
+        let mut rng = case_rng(opts.seed, 19, 0);
+        let kp = KeyPair::new_with_rng(Algorithm::Ed25519, &mut rng);
+        let sk_hex = hex::encode(kp.private().to_bytes());
+        for so in SMALL_ORDER.iter() {
+            if PublicKey::from_bytes(&hex::decode(so).unwrap(), Algorithm::Ed25519).is_err() {
+                continue;
+            }
+            for rp in [SMALL_ORDER[0], so] {
+                for _ in 0..(if opts.thorough { 24 } else { 6 }) {
+                    let msg: Vec<u8> = (0..rng.gen_range(0..40)).map(|_| rng.gen()).collect();
+                    emit(&mut sink, json!({"op": "keys", "kind": "verify", "alg": "ed25519", "sk": sk_hex, "msg": hex::encode(&msg), "sig_mut": "keyless",
+                        "r_point": rp, "at": 0, "bit": 0, "vk": {"alg": "ed25519", "bytes": so}}));
+                }
             }
         }
     }
